@@ -25,13 +25,14 @@ const (
 
 // Config bounds a generated program.
 type Config struct {
-	Opts     syntax.FileOptions // dialect: Set, While, Recursion, TopLevelControl, GlobalReassign are honoured
-	MaxStmts int                // top-level statements (default 12)
-	MaxDepth int                // expression depth (default 4)
-	Trace    bool               // wrap sub-expressions in t(tag, e) (host function returning e) to expose evaluation order
-	Loads    bool               // may begin with load("m.star", "la", lb="lb") binding ints la, lb
-	Host     bool               // may call host functions tick() -> int and trace(...) -> None
-	Misuse   float64            // probability of deliberately ill-typed / erroneous constructs (default 0.004)
+	Opts      syntax.FileOptions // dialect: Set, While, Recursion, TopLevelControl, GlobalReassign are honoured
+	MaxStmts  int                // top-level statements (default 12)
+	MaxDepth  int                // expression depth (default 4)
+	Trace     bool               // wrap sub-expressions in t(tag, e) (host function returning e) to expose evaluation order
+	Loads     bool               // may begin with load("m.star", "la", lb="lb") binding ints la, lb
+	Host      bool               // may call host functions tick() -> int and trace(...) -> None
+	Templates bool               // mix in directed scoping/closure/aliasing templates (they call trace, t and obj)
+	Misuse    float64            // probability of deliberately ill-typed / erroneous constructs (default 0.004)
 }
 
 // Program is a generated module.
@@ -58,32 +59,32 @@ type variable struct {
 }
 
 type function struct {
-	name     string
-	npos     int // positional parameters p0..p(npos-1)
-	nopt     int // how many of them (the last ones) have defaults
-	varargs  bool
-	kwonly   []string
+	name       string
+	npos       int // positional parameters p0..p(npos-1)
+	nopt       int // how many of them (the last ones) have defaults
+	varargs    bool
+	kwonly     []string
 	kwoptional []bool
-	kwargs   bool
-	ret      Kind
+	kwargs     bool
+	ret        Kind
 }
 
 type scope struct {
-	parent  *scope
-	vars    []*variable
-	isFunc  bool
-	inLoop  bool
+	parent   *scope
+	vars     []*variable
+	isFunc   bool
+	inLoop   bool
 	assigned map[string]bool // globals assigned at top level (for !GlobalReassign)
 }
 
 type g struct {
-	r    *rand.Rand
-	cfg  Config
-	p    *Program
-	tag  int
-	uniq int
-	sc   *scope
-	top  *scope
+	r     *rand.Rand
+	cfg   Config
+	p     *Program
+	tag   int
+	uniq  int
+	sc    *scope
+	top   *scope
 	funcs []*function
 }
 
@@ -108,9 +109,13 @@ func call(fn syntax.Expr, args ...syntax.Expr) *syntax.CallExpr {
 
 func dot(x syntax.Expr, name string) syntax.Expr { return &syntax.DotExpr{X: x, Name: id(name)} }
 
-func bin(op syntax.Token, x, y syntax.Expr) syntax.Expr { return &syntax.BinaryExpr{Op: op, X: x, Y: y} }
+func bin(op syntax.Token, x, y syntax.Expr) syntax.Expr {
+	return &syntax.BinaryExpr{Op: op, X: x, Y: y}
+}
 
-func named(name string, v syntax.Expr) syntax.Expr { return &syntax.BinaryExpr{Op: syntax.EQ, X: id(name), Y: v} }
+func named(name string, v syntax.Expr) syntax.Expr {
+	return &syntax.BinaryExpr{Op: syntax.EQ, X: id(name), Y: v}
+}
 
 // Generate builds a random program.
 func Generate(r *rand.Rand, cfg Config) *Program {
@@ -687,6 +692,11 @@ func (g *g) localAssignable(k Kind) *variable {
 
 func (g *g) stmt(depth int) []syntax.Stmt {
 	for {
+		if g.cfg.Templates && depth == 0 && g.atTop() && g.chance(0.12) {
+			if st := g.template(); st != nil {
+				return st
+			}
+		}
 		switch g.r.Intn(16) {
 		case 0, 1, 2:
 			k := []Kind{KInt, KInt, KStr, KList, KDict, KBool}[g.r.Intn(6)]
